@@ -7,6 +7,7 @@ import SciVerif.Tie.RunSem
 import SciVerif.Model.Chan
 import SciVerif.Tie.C12Sem
 import SciVerif.Model.Net
+import SciVerif.Model.NetVal
 /-!
 Line-protocol driver (Tie B): one request per line on stdin (tab separated), one response line.
 It runs the *executable models*, instantiated with the semantics records Tie A regenerated from
@@ -282,6 +283,54 @@ def final (n : Nat) (ins : List (List Nat)) (src : List Nat) (B : Nat) : String 
   let vs := List.finRange n
   s!"term={",".intercalate (vs.map fun v => if s.term v then "1" else "0")};c={",".intercalate (vs.map fun v => toString (s.c v))};f={",".intercalate (vs.map fun v => toString (s.f v))};steps={r.2};stuck={stuckB net s}"
 
+/-! the network with values: items are files / parameter values as the harness' workflows produce them -/
+structure Item where
+  val   : String            -- path of the file, or the parameter value
+  lines : List String       -- the file's lines
+deriving Inhabited
+
+structure Meta where
+  name  : String
+  kind  : String            -- src | psrc | proc
+  nfile : Nat               -- proc: number of file in-ports (a further in-port is the parameter port)
+  pvals : List String       -- psrc: the values
+
+def taskOf (m : Meta) (items : List Item) : Item :=
+  let files := items.take m.nfile
+  let pv := (items.drop m.nfile).head?
+  let nm := m.name ++ String.join (files.map fun f => "." ++ f.val) ++ (match pv with | some p => "." ++ p.val | none => "") ++ ".o"
+  { val := nm, lines := files.flatMap (·.lines) ++ [m.name ++ "|out|" ++ (match pv with | some p => "p=" ++ p.val | none => "")] }
+
+def mkVNet (n : Nat) (ins : List (List Nat)) (src : List Nat) (B : Nat) (ms : List Meta) : VNet n Item :=
+  let m := fun (v : Fin n) => ms.getD v.val { name := "?", kind := "?", nfile := 0, pvals := [] }
+  { net := mkNet n ins src B,
+    srcv := fun v k =>
+      if (m v).kind == "psrc" then { val := (m v).pvals.getD k "?", lines := [] }
+      else if (m v).kind == "proc" then taskOf (m v) []       -- a process without ports: one task, no inputs
+      else { val := s!"{(m v).name}_{k}.txt", lines := [s!"src:{(m v).name}_{k}.txt"] },
+    g := fun v items => taskOf (m v) items }
+
+/-- greedy maximal run, trying the labels in reverse order (a schedule different from `maximal`'s) -/
+def maximalV {n : Nat} (vn : VNet n Item) : Nat → VSt n Item → VSt n Item
+  | 0, s => s
+  | fuel + 1, s =>
+    match (allLbls n).reverse.findSome? (fun l => vstep vn s l) with
+    | none => s
+    | some s' => maximalV vn fuel s'
+
+def showItems (l : List Item) : String :=
+  "\x1d".intercalate (l.map fun i => i.val ++ "\x1e" ++ "\x1e".intercalate i.lines)
+
+/-- per process: what it has sent at the end of a maximal run; `zip=` tells whether this equals the zip
+semantics `den` (it must: `c04_network_sent_is_prefix`) -/
+def values (n : Nat) (ins : List (List Nat)) (src : List Nat) (B : Nat) (ms : List Meta) : String :=
+  let vn := mkVNet n ins src B ms
+  let bound := n * (2 * (src.foldl max 0) + 1) + 1
+  let s := maximalV vn bound (vinit n Item)
+  let vs := List.finRange n
+  let agree := vs.all fun v => showItems (sent s v) == showItems ((List.range (s.base.f v)).map (den vn n v))
+  s!"zip={agree}\x1f" ++ "\x1f".intercalate (vs.map fun v => showItems (sent s v))
+
 end NetRun
 
 def handle (line : String) : String :=
@@ -416,6 +465,12 @@ def handle (line : String) : String :=
   | ["net.final", n, ins, src, b] =>
     let inl := (if ins.isEmpty then [] else ins.splitOn ";").map fun p => if p == "-" then [] else parseNats p
     NetRun.final n.toNat! inl (parseNats src) b.toNat!
+  | ["net.values", n, ins, src, b, metas] =>
+    let inl := (if ins.isEmpty then [] else ins.splitOn ";").map fun p => if p == "-" then [] else parseNats p
+    let ms := (if metas.isEmpty then [] else metas.splitOn ";").filterMap fun m => match m.splitOn ":" with
+      | [nm, kind, nf, pv] => some ({ name := nm, kind := kind, nfile := nf.toNat!, pvals := if pv.isEmpty then [] else pv.splitOn "," } : NetRun.Meta)
+      | _ => none
+    NetRun.values n.toNat! inl (parseNats src) b.toNat! ms
   | ["run.sem"] => s!"skipSelf={runSem.skipSelf};driverRemovedFromArg={runSem.driverRemovedFromArg};singleProcKept={runSem.singleProcKept};driverReadyChecked={runSem.driverReadyChecked};sinkWaited={runSem.sinkWaited};readyBeforeStart={runSem.readyBeforeStart};mergesFile={runSem.mergesFile};mergesParam={runSem.mergesParam}"
   | ["chan.search", b, streams] =>
     let ss := (if streams.isEmpty then [] else streams.splitOn ";").map parseNats
